@@ -632,6 +632,12 @@ fn replay_known<P: Property>(p: &P, ctx: &RunCtx, open: &[findings::Entry]) -> V
                 println!("KNOWN-FINDING: property={} {} {}", p.id(), e.id, e.what);
                 out.push(json!({"id": e.id, "still_fails": true}));
             }
+            Verdict::Fail(f) if open.iter().any(|o| o.signature == f.sig) => {
+                // the witness still fails; a case with several wrong answers is reported under one of its open
+                // signatures, not necessarily this entry's
+                println!("KNOWN-FINDING: property={} {} {} [witness currently classified under the open signature {}]", p.id(), e.id, e.what, f.sig);
+                out.push(json!({"id": e.id, "still_fails": true, "classified_as": f.sig}));
+            }
             Verdict::Fail(f) => {
                 println!("NOTE: witness of {} now fails with a different signature: {}", e.id, f.sig);
                 out.push(json!({"id": e.id, "still_fails": false, "other_sig": f.sig}));
